@@ -151,7 +151,8 @@ CHECKS = {
              "park) while its condition holds always has a notification still coming; once all signalling threads are done no waiter with a true condition is parked (no lost wake-up); the guard "
              "is exclusive. (b) NO DEADLOCK STATE on the single-producer pipeline model (Disruptor/Progress.v; any ring size, stage topology, batch sizes): from EVERY reachable state in which no handler "
              "has been told to exit there is a continuation in which every handler has returned from everything published (drain_possible), a write of up to N events completes (write_possible), and "
-             "every handler reaches its exit (join_possible). These are possibility statements (no stuck state); termination under a fair scheduler is NOT a theorem: it is explored on every run - the "
+             "every handler reaches its exit (join_possible). (c) Progress of the blocking protocol (Disruptor/WaitProgress.v): from every reachable state a waiter whose condition holds can return by genuine "
+             "steps only - no spurious wake-up needed (waiter_can_return). These are possibility statements (no stuck state); termination under a fair scheduler is NOT a theorem: it is explored on every run - the "
              "scheduler reports all-finished vs deadlock vs budget exhausted vs panic - for spin and blocking strategies, zero-event pipelines, tiny rings. Found and fixed: drain of an unused single "
              "producer (D5), stale-watermark underflow (D10). Multi-producer stall: known finding D8.",
         note=LEVEL_NOTE_COMMON + "Axioms: none. " + "the deterministic scheduler hooks (cfg deepcausality_rs_deep_causality_verif) make every atomic / mutex / condvar operation and slot access of the real code a scheduling point and log it with its real Ordering; Fair termination is exploration-level only; the progress theorems are on the spin-style model (a blocked thread is a thread whose step is not enabled), the blocking strategy's parking is covered by (a).",
